@@ -100,7 +100,7 @@ impl Scenario {
         let nstake = r.below(4);
         for i in 0..nstake {
             stakes.insert(TxHash(tmelcrypt::hash_single(&[b's', i as u8])), StakeDoc {
-                pubkey: keys.pk[(i % 3) as usize], e_start: if r.chance(1, 5) { 1 } else { 0 }, e_post_end: *r.pick(&[1u64, 2, 3, 100]),
+                pubkey: keys.pk[(i % 3) as usize], e_start: if r.chance(1, 5) { 1 } else { 0 }, e_post_end: *r.pick(&[0u64, 0, 1, 2, 3, 100]),
                 syms_staked: CoinValue(*r.pick(&[1u128, 2, 3, 10, 1000])) });
         }
         let cfg = GenesisConfig {
@@ -658,7 +658,7 @@ impl Scenario {
         }
         // legacy covenants read slot 0: if any input is legacy, its signature goes first
         if let Some(pos) = inputs.iter().position(|(_, c)| matches!(self.covs.get(&c.coin_data.covhash).map(|c| &c.kind), Some(CovKind::SigLegacy(_)))) { sigs.swap(0, pos); }
-        while sigs.last().map(|s| s.is_empty()).unwrap_or(false) { sigs.pop(); }
+        if !r.chance(1, 5) { while sigs.last().map(|s| s.is_empty()).unwrap_or(false) { sigs.pop(); } }
         t.sigs = sigs;
         t
     }
@@ -1319,6 +1319,71 @@ pub fn directed(r: &mut Rng) -> Vec<Scenario> {
         }
         sc.mode = saved;
         sc.op_apply_block(&txs, None, 0, r);
+        out.push(sc);
+    }
+    // regression: placeholder (empty) signatures under the TIP-908 commitment; a stake that lapses in the restart
+    // epoch; a pool opened with one empty side and then swapped against
+    {
+        let mut sc = base("d_tip908_empty_sigs", r, NetID::Custom08, 1000);
+        sc.block_end(None);
+        let at = sc.at();
+        let m = sc.coin_of(Denom::Mel, 1 << 40).unwrap();
+        let mut t = sc.mk(r, TxKind::Normal, &[m], vec![sc.cd(at, 1 << 30, Denom::Mel)], vec![]);
+        t.sigs = vec![Bytes::new(), Bytes::new()];
+        sc.op_batch(&[t]);
+        let a = Some(ProposerAction { fee_multiplier_delta: 0, reward_dest: at });
+        sc.op_seal(a);
+        sc.op_restart();
+        out.push(sc);
+    }
+    {
+        let mut sc = Scenario::new("d_lapsing_stake", r, NetID::Custom02, 1000, 1 << 20);
+        sc.fixed_change = Some(sc.at());
+        // rebuild the genesis with a stake whose end field is the current epoch
+        let db = Database::new(InMemoryCas::default());
+        let mut stakes = BTreeMap::new();
+        stakes.insert(TxHash(tmelcrypt::hash_single(b"lapsing")), StakeDoc { pubkey: sc.keys.pk[0], e_start: 0, e_post_end: 0, syms_staked: CoinValue(7) });
+        stakes.insert(TxHash(tmelcrypt::hash_single(b"staying")), StakeDoc { pubkey: sc.keys.pk[1], e_start: 0, e_post_end: 5, syms_staked: CoinValue(9) });
+        let cfg = GenesisConfig { network: NetID::Custom02, init_coindata: CoinData { covhash: sc.at(), value: CoinValue(1 << 50), denom: Denom::Mel, additional_data: Bytes::new() }, stakes, init_fee_pool: CoinValue(1 << 20), init_fee_multiplier: 1000 };
+        sc.mode = Mode::U(cfg.realize(&db));
+        sc.db = db;
+        let d = sc.dump_now(); sc.init = sc.dump_str(&d);
+        let a = Some(ProposerAction { fee_multiplier_delta: 1, reward_dest: sc.at() });
+        sc.op_seal(a);
+        sc.op_restart();
+        sc.op_confirm(&[(0, true), (1, true)]);
+        sc.op_next();
+        sc.op_seal(a);
+        sc.op_restart();
+        out.push(sc);
+    }
+    {
+        let mut sc = base("d_onesided_pool", r, NetID::Custom02, 1000);
+        let at = sc.at();
+        let m = sc.coin_of(Denom::Mel, 1 << 40).unwrap();
+        let t0 = sc.mk(r, TxKind::Normal, &[m], vec![sc.cd(at, 5000, Denom::NewCustom)], vec![]);
+        let tok = Denom::Custom(t0.hash_nosigs());
+        sc.op_batch(&[t0.clone()]);
+        sc.block_end(None);
+        let key = PoolKey::new(Denom::Mel, tok);
+        sc.dict.pool(key);
+        let m = sc.coin_of(Denom::Mel, 1 << 40).unwrap();
+        let c = (CoinID::new(t0.hash_nosigs(), 0), CoinDataHeight { coin_data: sc.cd(at, 5000, tok), height: BlockHeight(0) });
+        // left side positive, right side zero (whichever denomination is left)
+        let (l, rr, rest) = if key.left() == Denom::Mel { (sc.cd(at, 1000, Denom::Mel), sc.cd(at, 0, tok), sc.cd(at, 5000, tok)) } else { (sc.cd(at, 1000, tok), sc.cd(at, 0, Denom::Mel), sc.cd(at, 4000, tok)) };
+        let dep = sc.mk(r, TxKind::LiqDeposit, &[m, c], vec![l, rr, rest], key.to_bytes().to_vec());
+        sc.op_batch(&[dep]);
+        if sc.block_end(None) {
+            // sell the left denomination into the one-sided pool
+            let m = sc.coin_of(Denom::Mel, 1 << 40).unwrap();
+            let mut ins = vec![m];
+            let outv = if key.left() == Denom::Mel { sc.cd(at, 500, Denom::Mel) } else {
+                let tc = sc.wallet().coins.into_iter().find(|(_, c)| c.coin_data.denom == tok && c.coin_data.value.0 >= 500).unwrap();
+                ins.push(tc.clone()); sc.cd(at, tc.1.coin_data.value.0, tok) };
+            let sw = sc.mk(r, TxKind::Swap, &ins, vec![outv], key.to_bytes().to_vec());
+            sc.op_batch(&[sw]);
+            sc.op_seal(None);
+        }
         out.push(sc);
     }
     // F25: a pool created with an empty side, then a second deposit
